@@ -119,9 +119,15 @@ def r71(ctx, repo):
                     pending = None
                     continue
                 if any(isinstance(x, ast.Return) for x in walk(st)):
-                    raise AnalysisError(
-                        f"__getitem__: unrecognised returning branch "
-                        f"`{short(st.test, 50)}`")
+                    # a guard around further lookup stages (e.g. a cheap
+                    # pre-test): the stages inside keep their order
+                    before = len(stages)
+                    scan(st.body)
+                    scan(st.orelse)
+                    if len(stages) == before:
+                        raise AnalysisError(
+                            f"__getitem__: unrecognised returning branch "
+                            f"`{short(st.test, 50)}`")
                 continue
             if isinstance(st, ast.Assign) and isinstance(
                     st.value, ast.Call) and isinstance(
@@ -496,16 +502,41 @@ def r72(ctx, repo):
     gi = method(bp, "__getitem__")
     cons = [c for c in walk(gi) if isinstance(c, ast.Call)
             and call_name(c) == "BasinProxyFeature"]
-    if len(cons) != 1:
-        raise AnalysisError("BasinProxy.__getitem__: wrapping idiom lost")
-    fo, bm = kwarg(cons[0], "feat_obj", 0), kwarg(cons[0], "basinmap", 1)
     feat = gi.args.args[1].arg
+    plain = [c for c in cons if kwarg(c, "feat_obj", 0) is not None and txt(
+        kwarg(c, "feat_obj", 0)) == f"self.ds[{feat}]"]
+    if not cons:
+        raise AnalysisError("BasinProxy.__getitem__: wrapping idiom lost")
+    first = (plain or cons)[0]
+    fo, bm = kwarg(first, "feat_obj", 0), kwarg(first, "basinmap", 1)
+    # further wrappers (collapsing nested proxies): their map must be taken
+    # through the proxy's own map
+    for c in cons:
+        if c is first:
+            continue
+        cm = kwarg(c, "basinmap", 1)
+        vals = [cm]
+        if isinstance(cm, ast.Name):
+            vals = [n.value for n in walk(gi) if isinstance(n, ast.Assign)
+                    and is_name(n.targets[0], cm.id)]
+        elif is_self_attr(cm):
+            vals = [n.value for n in walk(gi) if isinstance(n, ast.Assign)
+                    and txt(n.targets[0]) == txt(cm)]
+        okc = bool(vals) and all(
+            txt(v) == "self.basinmap" or (isinstance(v, ast.Subscript)
+                                          and txt(v.slice) == "self.basinmap")
+            for v in vals)
+        ctx.ob("R7.2", okc, "a collapsed wrapper indexes the nested map "
+               "with the proxy's own map" if okc else
+               f"a further wrapper uses map `{short(cm, 40)}`, which is not "
+               f"taken through the proxy's own map", node=c,
+               label=f"collapsed wrapper map {short(cm, 40)}")
     ok = fo is not None and txt(fo) == f"self.ds[{feat}]" and bm is not None \
         and txt(bm) == "self.basinmap"
     ctx.ob("R7.2", ok, "BasinProxy wraps the requested feature of the basin "
            "dataset with its own map" if ok else
            f"BasinProxy wraps `{txt(fo)}` with map `{txt(bm)}`",
-           node=cons[0], label="proxy wraps feature with map")
+           node=first, label="proxy wraps feature with map")
     rets = [r for r in walk(gi) if isinstance(r, ast.Return)]
     stores = [n for n in walk(gi) if isinstance(n, ast.Assign) and isinstance(
         n.targets[0], ast.Subscript) and is_self_attr(n.targets[0].value)]
@@ -517,10 +548,14 @@ def r72(ctx, repo):
            "feature", node=gi, label="proxy cache key")
     wrapped = {n.targets[0].id for n in walk(gi) if isinstance(n, ast.Assign)
                and isinstance(n.targets[0], ast.Name)
-               and n.value is cons[0]}
+               and any(n.value is c for c in cons)}
+    unwrapped = {n.targets[0].id for n in walk(gi) if isinstance(
+        n, ast.Assign) and isinstance(n.targets[0], ast.Name)
+        and not any(n.value is c for c in cons)}
     ok = bool(stores) and all(
-        n.value is cons[0] or (isinstance(n.value, ast.Name)
-                               and n.value.id in wrapped) for n in stores)
+        any(n.value is c for c in cons) or (
+            isinstance(n.value, ast.Name) and n.value.id in wrapped
+            and n.value.id not in unwrapped) for n in stores)
     ctx.ob("R7.2", ok, "what is cached and returned is the mapping wrapper"
            if ok else "the feature of the basin dataset is returned without "
            "the mapping wrapper", node=stores[0] if stores else gi,
@@ -1912,6 +1947,51 @@ MUTANTS = [
     ("wrapper cache keyed by a constant", FB,
      ("            self._features[feat] = feat_obj\n",
       "            self._features[\"last\"] = feat_obj\n"), "R7.7"),
+    ("composed map memoised once per proxy (seeded C07_11)", FB,
+     [("        self._features = {}\n\n    def __contains__(self, item):",
+       "        self._features = {}\n"
+       "        self._basinmap_nested = None\n\n"
+       "    def __contains__(self, item):"),
+      ("                                         basinmap=self.basinmap)\n"
+       "            self._features[feat] = feat_obj\n",
+       "                                         basinmap=self.basinmap)\n"
+       "            if isinstance(feat_obj.feat_obj, BasinProxyFeature):\n"
+       "                nested = feat_obj.feat_obj\n"
+       "                if self._basinmap_nested is None:\n"
+       "                    self._basinmap_nested = "
+       "nested.basinmap[self.basinmap]\n"
+       "                feat_obj = BasinProxyFeature(\n"
+       "                    feat_obj=nested.feat_obj,\n"
+       "                    basinmap=self._basinmap_nested)\n"
+       "            self._features[feat] = feat_obj\n")], "R7.7"),
+    ("collapsed wrapper ignores the proxy's own map", FB,
+     ("                                         basinmap=self.basinmap)\n"
+      "            self._features[feat] = feat_obj\n",
+      "                                         basinmap=self.basinmap)\n"
+      "            if isinstance(feat_obj.feat_obj, BasinProxyFeature):\n"
+      "                nested = feat_obj.feat_obj\n"
+      "                feat_obj = BasinProxyFeature(\n"
+      "                    feat_obj=nested.feat_obj,\n"
+      "                    basinmap=nested.basinmap)\n"
+      "            self._features[feat] = feat_obj\n"), "R7.2"),
+    ("cached ancillary data before stored features (seeded C01_11)", CORE,
+     ("        if feat in self._events:\n"
+      "            return self._events[feat]\n"
+      "        elif feat in self._usertemp:\n"
+      "            return self._usertemp[feat]\n"
+      "        # 1. Check for cached ancillary data\n"
+      "        data = self._get_ancillary_feature_data(feat, no_compute=True)\n"
+      "        if data is not None:\n"
+      "            return data\n",
+      "        if feat in self._ancillaries:\n"
+      "            data = self._get_ancillary_feature_data(feat, "
+      "no_compute=True)\n"
+      "            if data is not None:\n"
+      "                return data\n"
+      "        if feat in self._usertemp:\n"
+      "            return self._usertemp[feat]\n"
+      "        elif feat in self._events:\n"
+      "            return self._events[feat]\n"), "R7.1"),
     ("ChildNDArray.shape forwarded to the parent", HIEV,
      ("        return tuple([len(self)] + list(hp[self.feat][0].shape))\n",
       "        return hp[self.feat].shape\n"), "R7.6"),
@@ -2112,6 +2192,25 @@ TWINS = [
      _twin_append_verified),
     ("basin loop over a filtering generator expression", CORE,
      _TWIN_CANDIDATES),
+    ("nested proxies collapsed with a locally composed map", FB,
+     ("                                         basinmap=self.basinmap)\n"
+      "            self._features[feat] = feat_obj\n",
+      "                                         basinmap=self.basinmap)\n"
+      "            if isinstance(feat_obj.feat_obj, BasinProxyFeature):\n"
+      "                nested = feat_obj.feat_obj\n"
+      "                feat_obj = BasinProxyFeature(\n"
+      "                    feat_obj=nested.feat_obj,\n"
+      "                    basinmap=nested.basinmap[self.basinmap])\n"
+      "            self._features[feat] = feat_obj\n")),
+    ("cached ancillary lookup behind a cheap pre-test", CORE,
+     ("        data = self._get_ancillary_feature_data(feat, no_compute=True)\n"
+      "        if data is not None:\n"
+      "            return data\n",
+      "        if feat in self._ancillaries:\n"
+      "            data = self._get_ancillary_feature_data(feat, "
+      "no_compute=True)\n"
+      "            if data is not None:\n"
+      "                return data\n")),
     ("gather loops in a helper with positional-only parameters", FB,
      _twin_fetch_events),
     ("load_dataset with early return", FB,
